@@ -134,6 +134,7 @@ def run(ctx, eng):
     head = False
     head_bad = []
     hdr = False
+    hdr_bad = []
     bad_int = True
     for p in cm.normal_paths(paths):
         ws = [e for e in p.events if e.kind == 'write' and
@@ -149,12 +150,25 @@ def run(ctx, eng):
                 head_bad.append('a HEAD path ends with expected length %s'
                                 % (cm.show0(ws[-1].value) if ws else
                                    'unset'))
+        found = any(c.endswith("== b'content-length')") or
+                    c.startswith("(b'content-length' ==") for c in conds)
         for e in ws:
             v = e.value
-            if v[0] == 'call' and v[1] == 'int' and any(
-                    "== b'content-length')" in c or
-                    "(b'content-length' ==" in c for c in conds):
+            if v[0] == 'call' and v[1] == 'int' and found:
                 hdr = True
+        # a declared length is a declared length, 0 included: the parsed
+        # value is stored on every path that found the field, and nothing is
+        # decided on it
+        if found and not any(e.value[0] == 'call' and e.value[1] == 'int'
+                             for e in ws) and not any(
+                "b'HEAD'" in c for c in conds if not c.startswith('not')):
+            hdr_bad.append('a path finds content-length without storing it')
+        for e in p.events:
+            if e.kind == 'assume' and any(
+                    t[0] == 'call' and t[1] == 'int'
+                    for t in cm._subterms(e.cond)):
+                hdr_bad.append('decides on the parsed value (%s)'
+                               % cm.show0(e.cond)[:60])
     for p in paths:
         if cm.explicit_raise(p) is not None and \
                 p.exc['names'] == {'ProtocolError'} and any(
@@ -166,8 +180,9 @@ def run(ctx, eng):
            'request_method == b"HEAD" => expected length 0 on every path',
            node=f4.node)
     ctx.ob('FLOW.expected', f4.qual, 'content-length header parsed', hdr and
-           not bad_int, 'int(value, 10) of the content-length field; a '
-           'malformed value is a ProtocolError', node=f4.node)
+           not bad_int and not hdr_bad, '; '.join(sorted(set(hdr_bad))) or
+           'int(value, 10) of the content-length field, stored whatever its '
+           'value; a malformed value is a ProtocolError', node=f4.node)
     # no-content statuses
     mentions = set()
     import ast
